@@ -192,11 +192,33 @@ def memo_reset(fn):
 ARITH_OPS = ['+', '-', '*', '#', '/', '%', ':', '&', '|', '^', '~', '_']
 
 
+KIND_STMT = {'add': 'cur = cur + arg', 'sub': 'cur = cur - arg', 'mul': 'cur = cur * arg',
+             'floordiv': 'cur = cur // arg', 'truediv': 'cur = cur / arg', 'mod': 'cur = cur % arg',
+             'pow': 'cur = cur ** arg', 'and': 'cur = cur & arg', 'or': 'cur = cur | arg', 'xor': 'cur = cur ^ arg',
+             'invert': 'cur = ~cur', 'neg': 'cur = -cur'}
+
+
+def _shared(name):
+    """a helper of extract/extract_facts.py (the process that loads this module)"""
+    import sys
+    m = sys.modules.get('__main__')
+    if m is not None and hasattr(m, name):
+        return getattr(m, name)
+    import importlib
+    return getattr(importlib.import_module('extract_facts'), name)
+
+
 def arith_forms(te, op_chars_of_test, P):
-    """the statement `_t_eval` runs for each arithmetic op character: the body of the `if op == '<c>':` /
-    `elif op == '<c>':` branch that names it (one statement).  `cur = cur + arg` is Python's *binary*
-    operator (a new object for every builtin container); `cur += arg` or a call of `operator.iadd`
-    would be the in-place one."""
+    """the statement `_t_eval` runs for each arithmetic op character, in canonical form.
+
+    Shape 1: the body of the `if op == '<c>':` / `elif op == '<c>':` branch that names it (one statement), as
+    written.  `cur = cur + arg` is Python's *binary* operator (a new object for every builtin container);
+    `cur += arg` would be the in-place one.
+    Shape 2: module-level dispatch tables (`f = TABLE.get(op)` / `cur = f(cur, arg)`, read by the shared helper
+    `table_dispatch` from the LIVE dict of the imported module): an entry that is the function of the
+    `operator` module equivalent to the binary / unary expression (operator.add is `a + b`, operator.or_ is
+    `a | b`, …) is reported as that expression; any other function (operator.ior, operator.iadd, a lambda)
+    as `cur = <other>(…)`, which the obligation rejects."""
     forms = {}
     for n in ast.walk(te):
         if not isinstance(n, ast.If):
@@ -204,10 +226,33 @@ def arith_forms(te, op_chars_of_test, P):
         chars = op_chars_of_test(n.test) or []
         if len(chars) == 1 and chars[0] in ARITH_OPS and len(n.body) == 1:
             forms.setdefault(chars[0], ' '.join(ast.unparse(n.body[0]).split()))
+    if not forms:
+        # no if-chain over the arithmetic op characters: the dispatch-table shape?
+        try:
+            import glom.core as core_mod
+            table_dispatch = _shared('table_dispatch')
+        except Exception as e:           # pragma: no cover
+            P.add('_t_eval: cannot load the dispatch-table reader (%r)' % (e,))
+            return []
+        for t in ast.walk(te):
+            if isinstance(t, ast.Try) and any('ArithmeticError' in ast.unparse(h.type) for h in t.handlers if h.type):
+                tbl = table_dispatch(t.body, core_mod, P)
+                if tbl is None:
+                    continue
+                for c, kind in tbl:
+                    if c in forms:
+                        P.add('_t_eval: op %r is in two dispatch tables' % c)
+                        return []
+                    forms[c] = KIND_STMT.get(kind, 'cur = <other>(cur, arg)')
+                extra = sorted(set(forms) - set(ARITH_OPS))
+                if extra:
+                    P.add('_t_eval: dispatch tables name op characters that are not arithmetic: %r' % (extra,))
+                    return []
     out = []
     for c in ARITH_OPS:
         if c not in forms:
-            P.add("_t_eval: no `if op == %r:` branch with a single statement (arithmetic dispatch not recognised)" % c)
+            P.add("_t_eval: no branch / dispatch-table entry with a single statement for op %r "
+                  "(arithmetic dispatch not recognised)" % c)
             return []
         out.append((c, forms[c]))
     return out
@@ -251,16 +296,44 @@ def extract(ctx):
                 create_uses_star = any(isinstance(n, ast.Name) and n.id == 'PATH_STAR' for n in ast.walk(s))
     gh = find_def(tree, 'get_handler', cls='TargetRegistry')
     gh_shape = []
+    key_type_src = ''
     if gh is None:
         P.add('TargetRegistry.get_handler not found')
     else:
+        # the memo protocol of get_handler in canonical form: key, membership test, return, store.
+        # Equivalent spellings are normalised: a key component that is a local assigned once
+        # (`obj_type = type(obj)`) is resolved, so `(type(obj), op)` and `(obj_type, op)` are the same key;
+        # the stored value is "the result of the uncached lookup" whether it is a local (`ret`) or the
+        # call of a method of the registry that computes it (`self._find_handler(...)`).
+        local_defs = {}
         for n in ast.walk(gh):
-            if isinstance(n, ast.Assign) and 'cache_key' in ast.unparse(n.targets[0]):
-                gh_shape.append(ast.unparse(n))
+            if isinstance(n, ast.Assign) and len(n.targets) == 1 and isinstance(n.targets[0], ast.Name):
+                local_defs.setdefault(n.targets[0].id, []).append(n.value)
+
+        def resolve(e):
+            if isinstance(e, ast.Name) and len(local_defs.get(e.id, [])) == 1:
+                return ast.unparse(local_defs[e.id][0])
+            return ast.unparse(e)
+        keys, tests, rets, stores = [], [], [], []
+        for n in ast.walk(gh):
+            if isinstance(n, ast.Assign) and ast.unparse(n.targets[0]) == 'cache_key':
+                v = n.value
+                if isinstance(v, ast.Tuple) and len(v.elts) == 2 and [resolve(x) for x in v.elts] == ['type(obj)', 'op']:
+                    keys.append('cache_key = (obj_type, op)')
+                    key_type_src = 'obj_type = type(obj)'
+                else:
+                    keys.append(ast.unparse(n))
             if isinstance(n, ast.If) and '_type_cache' in ast.unparse(n.test):
-                gh_shape.append('if ' + ast.unparse(n.test))
+                tests.append('if ' + ast.unparse(n.test))
             if isinstance(n, ast.Return):
-                gh_shape.append(ast.unparse(n))
+                rets.append(ast.unparse(n))
+            if isinstance(n, ast.Assign) and ast.unparse(n.targets[0]) == 'self._type_cache[cache_key]':
+                v = n.value
+                computed = isinstance(v, ast.Name) or (
+                    isinstance(v, ast.Call) and isinstance(v.func, ast.Attribute)
+                    and isinstance(v.func.value, ast.Name) and v.func.value.id == 'self')
+                stores.append('self._type_cache[cache_key] = ret' if computed else ast.unparse(n))
+        gh_shape = keys + tests + rets + stores
     resets = []
     for name in ('register', 'register_op'):
         fn = find_def(tree, name, cls='TargetRegistry')
@@ -286,12 +359,8 @@ def extract(ctx):
             if isinstance(n, ast.Attribute) and n.attr == '_type_cache':
                 memo_writers.append(q)
     memo_writers = sorted(set(memo_writers))
-    # the memo key is built from the exact type of the object
-    memo_key_type = ''
-    if gh is not None:
-        for n in ast.walk(gh):
-            if isinstance(n, ast.Assign) and ast.unparse(n.targets[0]) == 'obj_type':
-                memo_key_type = ast.unparse(n)
+    # the memo key is built from the exact type of the object (resolved above)
+    memo_key_type = key_type_src
     # Vars / ScopeVars: the holder an evaluation writes into is built from a copy of the spec's mapping
     sv_init = find_def(tree, '__init__', cls='ScopeVars')
     sv_shape = []
